@@ -1948,7 +1948,11 @@ class Ctx:
             # for the loop that is there.  A different loop KIND or loop variable means the code was restructured:
             # the invariant was written for another loop -> the contract cannot be applied (never a violation)
             hdr = spec.header.strip()
-            if not hdr.startswith("for ") or hdr[4:].split(" in ")[0].strip() != ast.unparse(s.target):
+            try:  # the contract's spelling of the loop variable, normalised like the code's (``x, p`` == ``(x, p)``)
+                want_target = ast.unparse(ast.parse(hdr.rstrip(":") + ":\n pass").body[0].target)
+            except Exception:  # noqa
+                want_target = hdr[4:].split(" in ")[0].strip() if hdr.startswith("for ") else None
+            if not hdr.startswith("for ") or want_target != ast.unparse(s.target):
                 raise ContractMismatch(f"{self.fname}: loop {k} was restructured: contract was written for "
                                        f"{spec.header!r}, code has {loop_header(s)!r}")
             self.notes.append(f"loop {k} header differs from the contract's note: {loop_header(s)!r}")
